@@ -383,9 +383,6 @@ func (r *runner) exec(client int, o op, src string) (x rec, problem string) {
 			x.out.text = "unchanged"
 		default:
 			x.out.text = "ok"
-			if int(n.Size) != r.p.sizes[o.val]+5 {
-				problem = fmt.Sprintf("INCONCLUSIVE harness assumption: %s stored a needle body of %d bytes, the model computes %d", o, n.Size, r.p.sizes[o.val]+5)
-			}
 		}
 	case opDelete:
 		n := &needle.Needle{Id: types.NeedleId(keyIds[o.key]), Cookie: types.Cookie(rightCookie)}
@@ -458,8 +455,46 @@ func (r *runner) history() string {
 	return b.String()
 }
 
+var (
+	sizeOnce sync.Once
+	sizeErr  string
+)
+
+// sizeAssumption checks once per process, sequentially, what the model assumes
+// about the size a delete reports: payload length + 5.
+func sizeAssumption() string {
+	sizeOnce.Do(func() {
+		dir := vlib.TempDir()
+		defer os.RemoveAll(dir)
+		s := newStore(dir, storage.NeedleMapInMemory)
+		defer s.Close()
+		if err := s.AddVolume(vid, "", storage.NeedleMapInMemory, "000", "", 0, 0, types.HardDriveType); err != nil {
+			sizeErr = err.Error()
+			return
+		}
+		drain(s)
+		for _, l := range []int{1, 2, 300, 4096, 65536} {
+			n := &needle.Needle{Id: 9, Cookie: 1, Ttl: needle.EMPTY_TTL, Data: payload(1, l)}
+			n.Checksum = needle.NewCRC(n.Data)
+			if _, err := s.WriteVolumeNeedle(vid, n, false); err != nil {
+				sizeErr = err.Error()
+				return
+			}
+			size, err := s.DeleteVolumeNeedle(vid, &needle.Needle{Id: 9, Cookie: 1})
+			if err != nil || int(size) != l+5 {
+				sizeErr = fmt.Sprintf("sequential write of %d bytes then delete reports size %d (%v), the model computes %d", l, size, err, l+5)
+				return
+			}
+		}
+	})
+	return sizeErr
+}
+
 // run executes the program and returns class labels.
 func run(t failer, p *program) (classes []string) {
+	if e := sizeAssumption(); e != "" {
+		t.Fatalf("INCONCLUSIVE harness assumption: %s", e)
+	}
 	r := &runner{t: t, p: p, dir: vlib.TempDir()}
 	defer os.RemoveAll(r.dir)
 	r.store = newStore(r.dir, p.kind)
@@ -548,9 +583,6 @@ func run(t failer, p *program) (classes []string) {
 		}
 	}
 	if len(problems) > 0 {
-		if strings.HasPrefix(problems[0], "INCONCLUSIVE") {
-			t.Fatalf("%s", problems[0])
-		}
 		r.fail("%s", strings.Join(problems, "; "))
 	}
 	if compactErrs > 0 {
@@ -667,6 +699,5 @@ func linearizableCase(t *rapid.T) {
 }
 
 func TestPropLinearizable(t *testing.T) {
-	vlib.Check(t, 400, 6000, linearizableCase)
+	vlib.Check(t, 600, 8000, linearizableCase)
 }
-
